@@ -247,6 +247,25 @@ Fixpoint leaks_known (rs : list sreq) (n : nat) (wl : list (list nat)) : bool :=
       leaks_known rs (S n) rest
   end.
 
+(** C37-3: every key that request number [i] did not get is also asked for by ANOTHER request of the
+    same node (any session).  The client sends a broadcast want-have for a key once for all sessions; when
+    the peer's answer to the earlier request is dropped or consumed, the later request's identical want is
+    not sent again before the message queue's periodic rebroadcast. *)
+Fixpoint covered_by_other (rs : list sreq) (skip i : nat) (n k : nat) : bool :=
+  match rs with
+  | [] => false
+  | r :: rest =>
+      (negb (i =? skip) && (s_node r =? n) && nmem k (s_keys r)) || covered_by_other rest skip (S i) n k
+  end.
+Fixpoint live_or_overlap (all rs : list sreq) (i : nat) : bool :=
+  match rs with
+  | [] => true
+  | r :: rest =>
+      (sys_live r ||
+       forallb (fun k => nmem k (s_out r) || covered_by_other all i 0 (s_node r) k) (s_keys r)) &&
+      live_or_overlap all rest (S i)
+  end.
+
 Definition check_case (c : case) : verdict :=
   match c with
   | CUnit reqs evs obs =>
@@ -274,5 +293,6 @@ Definition check_case (c : case) : verdict :=
       else if live_ok && wl_ok then VOk
       else if live_ok && leaks_known reqs 0 wl then VKnown 2
       else if live_known && leaks_known reqs 0 wl then VKnown 1
+      else if live_or_overlap reqs reqs 0 && leaks_known reqs 0 wl then VKnown 3
       else VSpecFail
   end.
